@@ -119,7 +119,16 @@ def stepW (w : World) (j : Json) : Except String World := do
       | "restoreFile" => pure DOp.restoreFile
       | "unstage" => pure DOp.unstage
       | _ => throw s!"bad discard op {o}"
-    pure (w.onPaths ps (fun r => dstep r op))
+    match op with
+    | .discardFile =>
+      -- git restores the named files, then post_checkout_hook runs a human checkpoint without named files:
+      -- the restored files are `DOp.discardFile` (restore + checkpoint), every other file in the
+      -- checkpoint's scope (computed on the restored tree) gets its human checkpoint too
+      let sc := scope (w.onPaths ps (fun r => dstep r .restoreFile)) []
+      pure (w.mapFiles (fun p r =>
+        if p ∈ ps then dstep r .discardFile
+        else if p ∈ sc then dstep r (.r (.base .humanCheckpoint)) else r))
+    | _ => pure (w.onPaths ps (fun r => dstep r op))
   | "unstageAll" => pure (w.all .unstageAll)
   | "resetHard" => pure (w.all (.resetHard (← getNatField j "n")))
   | "checkoutForceSame" => pure (w.all .checkoutForceSame)
